@@ -1590,9 +1590,24 @@ package gorums
 //@   ensures[C14.g] result1 == nil ==> result0 != nil && result0.addr == tcpString(resolved(addr)) && !wasalloc(result0)
 //@   ensures[C14.g] result1 != nil ==> result0 == nil
 
+// NewRawConfiguration dispatches on the option's dynamic type. NodeListOption has an unexported
+// method, so its implementers are exactly the option types of this package: the call is checked
+// once per implementer, each against ITS OWN contract (closed-world dispatch, /verif/DESIGN.md 2.3).
+// The precondition states per option type what that type's constructor needs; WithNewNodes options
+// (addNodes, which resolves a nested option first) are outside it - see (addNodes).newConfig.
 //@ func NewRawConfiguration
 //@   props C14
+//@   requires mgr != nil && mgr.lookup != nil
+//@   requires forall(id, in(id, mgr.lookup) ==> mgr.lookup[id] != nil && mgr.lookup[id].id == id)
+//@   requires !typeis(opt, "*addNodes") && !typeis(opt, "addNodes") && !typeis(opt, "addConfig")
+//@   requires typeis(opt, "*addConfig") && opt.(*addConfig) != nil ==> len(opt.(*addConfig).old) > 0 && \
+//@            forall(k, 0, len(opt.(*addConfig).old), opt.(*addConfig).old[k] != nil) && forall(k, 0, len(opt.(*addConfig).add), opt.(*addConfig).add[k] != nil) && \
+//@            base(opt.(*addConfig).old) != base(mgr.nodes) && base(opt.(*addConfig).add) != base(mgr.nodes) && \
+//@            (base(opt.(*addConfig).old) != base(opt.(*addConfig).add) || off(opt.(*addConfig).add) + len(opt.(*addConfig).add) <= off(opt.(*addConfig).old) + len(opt.(*addConfig).old))
 //@   ensures[C14.e] opt == nil ==> err != nil
+//@   ensures[C14.e] err == nil ==> len(nodes) > 0
+//@   ensures[C14.a] err == nil ==> forall(i, 0, len(nodes), nodes[i] != nil) && forall(i, 0, len(nodes), forall(j, 0, len(nodes), i < j ==> nodes[i].id < nodes[j].id))
+//@   ensures[C14.f] mgr.lookup != nil && forall(id, in(id, mgr.lookup) ==> mgr.lookup[id] != nil && mgr.lookup[id].id == id)
 
 // And: union of two configurations (C14.b), duplicates removed through the id set m,
 // sorted by id. Ghosts: T = the temporary slice append(o.old, o.add...) that is ranged
@@ -1645,6 +1660,7 @@ package gorums
 //@     after assert[C14.a] forall(i, 0, len(nodes), forall(j, 0, len(nodes), i < j ==> !apply_lessFunc(funcval("var ID"), nodes[j], nodes[i])))
 //@     after assert[C14.a] forall(i, 0, len(nodes), forall(j, 0, len(nodes), i < j ==> nodes[i].id <= nodes[j].id))
 //@     after assert[C14.a] forall(i, 0, len(nodes), forall(j, 0, len(nodes), i < j ==> nodes[i].id < nodes[j].id))
+//@   ensures[C14.f] old(mgr.lookup != nil && forall(id, in(id, mgr.lookup) ==> mgr.lookup[id] != nil && mgr.lookup[id].id == id)) ==> (mgr.lookup != nil && forall(id, in(id, mgr.lookup) ==> mgr.lookup[id] != nil && mgr.lookup[id].id == id))
 //@   ensures[C14.e] err == nil && len(nodes) > 0
 //@   ensures[C14.a] forall(i, 0, len(nodes), nodes[i] != nil) && forall(i, 0, len(nodes), forall(j, 0, len(nodes), i < j ==> nodes[i].id < nodes[j].id))
 //@   ensures[C14.d] forall(k, 0, len(o.old), o.old[k] == old(o.old[k])) && forall(k, 0, len(o.add), o.add[k] == old(o.add[k]))
@@ -1697,6 +1713,7 @@ package gorums
 //@   ensures[C14.e] len(o.nodeIDs) == 0 ==> err != nil
 //@   ensures[C14.c] err == nil ==> forall(k, 0, len(o.nodeIDs), old(in(o.nodeIDs[k], mgr.lookup)))
 //@   ensures[C14.a] err == nil ==> forall(i, 0, len(nodes), nodes[i] != nil) && forall(i, 0, len(nodes), forall(j, 0, len(nodes), i < j ==> nodes[i].id < nodes[j].id))
+//@   ensures[C14.f] mgr.lookup != nil && forall(id, in(id, mgr.lookup) ==> mgr.lookup[id] != nil && mgr.lookup[id].id == id)
 //@   ensures[C14.d] forall(k, 0, len(o.nodeIDs), o.nodeIDs[k] == old(o.nodeIDs[k]))
 
 // WithNodeList: one node per distinct address, carrying that address; an address whose
@@ -1728,6 +1745,7 @@ package gorums
 //@   ensures[C14.e] err == nil ==> len(nodes) > 0
 //@   ensures[C14.e] len(o.addrsList) == 0 ==> err != nil
 //@   ensures[C14.a] err == nil ==> forall(i, 0, len(nodes), nodes[i] != nil) && forall(i, 0, len(nodes), forall(j, 0, len(nodes), i < j ==> nodes[i].id < nodes[j].id))
+//@   ensures[C14.f] mgr.lookup != nil && forall(id, in(id, mgr.lookup) ==> mgr.lookup[id] != nil && mgr.lookup[id].id == id)
 //@   ensures[C14.d] forall(k, 0, len(o.addrsList), o.addrsList[k] == old(o.addrsList[k]))
 
 // Except / WithoutNodes: the ids of c that are not removed, in c's order (C14.b); the
@@ -1803,8 +1821,8 @@ package gorums
 //@   ensures[C14.g] typeis(result, "*nodeIDMap") && result.(*nodeIDMap) != nil && result.(*nodeIDMap).idMap == idMap
 
 // WithNodeMap: map range in arbitrary order (ghost visited set). Non-emptiness of the
-// result (C14.e) is not claimed here: the map model does not tie len(m) > 0 to the
-// existence of a key.
+// result (C14.e): a map whose length is positive has a key, that key was visited, and every
+// visited address has its node in the result.
 //@ func (nodeIDMap).newConfig
 //@   props C14 C15 C03
 //@   nopanic C14
@@ -1828,7 +1846,9 @@ package gorums
 //@     after assert[C14.a] forall(i, 0, len(nodes), forall(j, 0, len(nodes), i < j ==> !apply_lessFunc(funcval("var ID"), nodes[j], nodes[i])))
 //@     after assert[C14.a] forall(i, 0, len(nodes), forall(j, 0, len(nodes), i < j ==> nodes[i].id <= nodes[j].id))
 //@   ensures[C14.e] len(o.idMap) == 0 ==> err != nil
+//@   ensures[C14.e] err == nil ==> len(nodes) > 0
 //@   ensures[C14.a] err == nil ==> forall(i, 0, len(nodes), nodes[i] != nil) && forall(i, 0, len(nodes), forall(j, 0, len(nodes), i < j ==> nodes[i].id < nodes[j].id))
+//@   ensures[C14.f] mgr.lookup != nil && forall(id, in(id, mgr.lookup) ==> mgr.lookup[id] != nil && mgr.lookup[id].id == id)
 
 // ---------------------------------------------------------------- small load-bearing pieces
 //
